@@ -482,7 +482,9 @@ theorem export_signals (h : List Op) :
 
 /-! ### 5. several handlers in one process -/
 
-/-- Several `DBusObjectHandler`s alive in one process (several connections; a connection and a bus), any
+/-- LIFTING LEMMA, true by construction of `Tree.Multi` (independent tables per handler is the model's
+DEFINITION, see the note there; that txdbus behaves like it is checked by the stream `history-handlers` only):
+several `DBusObjectHandler`s alive in one process (several connections; a connection and a bus), any
 interleaving of export / unexport calls on them: what handler `k` answers - its table at any text, hence
 every reply of `handleMsg`: UnknownObject, the introspected children, the managed objects - is what the
 calls made ON `k` imply, whatever was called on the others in between; so every theorem above about
@@ -494,8 +496,10 @@ theorem handlers_independent (h : List (Nat × Op)) (k : Nat) :
   have e := multi_run_proj h k
   exact ⟨e, fun s => by rw [e, lookup_run], fun s i m => by rw [e]⟩
 
-/-- One call on handler `k`: it does to `k`'s table, sends on `k`'s connection and raises exactly as the same
-call on a lone handler with that table; every other handler's table is unchanged and NOTHING is sent on any
+/-- `Multi.step` UNFOLDED (`sentOn := fun j => if j = k ...`, `Multi.set`): this restates the definition and says
+nothing about the code beyond what the definition assumes; kept so that the obligation the stream
+`history-handlers` ties is visible next to the property.  In the MODEL, one call on handler `k` does to `k`'s
+table, sends on `k`'s connection and raises exactly as the same call on a lone handler with that table; every other handler's table is unchanged and NOTHING is sent on any
 other handler's connection (the announcement of an export goes to the connection it was made on, only). -/
 theorem handler_call_is_local (T : Multi.Tables) (k : Nat) (op : Op) :
     (Multi.step T k op).tables k = (step (T k) op).exports ∧
